@@ -102,18 +102,23 @@ def run(case):
     mode = case['mode']
     if mode == 'threads':
         from vf import twin
+        import importlib
+        chc = importlib.reload(chc)        # pristine module globals: nothing has been decoded in this module object yet
         sets = [np.arange(0, NCODE, 997, dtype=np.uint16), np.arange(5, NCODE, 1009, dtype=np.uint16), np.arange(11, NCODE, 1013, dtype=np.uint16)][:case['n']]
-        ref = [tuple(a.copy() for a in chc._unpack_euler16(c.copy())) for c in sets]
         calls = [(lambda c=c: chc._unpack_euler16(c.copy())) for c in sets]
         fname = chc.__file__
         nexec = npts = 0
         outcomes = set()
+        runs = []
         for choices, pre, res in twin.explore_lines(calls, lambda f: f == fname, case['bound'], modules=[chc], max_exec=20000):
             if choices == 'CAPPED':
                 extra['threads_capped'] = 1
                 break
             nexec += 1
             npts += len(choices)
+            runs.append((choices, pre, [None if r is None else tuple(np.array(a) for a in r) for r in res]))
+        ref = [tuple(a.copy() for a in chc._unpack_euler16(c.copy())) for c in sets]     # sequential decode, after the exploration
+        for choices, pre, res in runs:
             ok = all(r is not None and all(np.array_equal(x, y) for x, y in zip(r, rf)) for r, rf in zip(res, ref))
             outcomes.add(ok)
             if not ok and not probs:
